@@ -144,7 +144,14 @@ func (w *Wire) Flush() error {
 // WriteFrame writes one raw multiplex frame immediately.
 func (w *Wire) WriteFrame(tag int, payload []byte) error {
 	var hdr [4]byte
-	binary.LittleEndian.PutUint32(hdr[:], uint32(MplexBase+tag)<<24|uint32(len(payload)))
+	h := uint32(MplexBase+tag)<<24 | uint32(len(payload))
+	if v, tr := w.mutate("mux.header", int64(int32(h))); true {
+		h = uint32(int32(v))
+		if tr {
+			w.truncated = true
+		}
+	}
+	binary.LittleEndian.PutUint32(hdr[:], h)
 	buf := append(hdr[:], payload...)
 	n, err := w.W.Write(buf)
 	w.BytesOut += int64(n)
